@@ -979,6 +979,12 @@ func c16ApiHot(f []string) vResult {
 	}
 	n := atomic.AddUint64(&c16ApiSeq, 1)
 	prefix := fmt.Sprintf("/dev/shm/verif_apihot_%d_%d", os.Getpid(), n)
+	// apihot <map> <n> x: the FIRST hand-over is announced while no new server listens (nobody can acknowledge): both sides
+	// must leave the restart state within their time-out, and the next hand-over - with a server - must be accepted and work
+	noServerFirst := len(f) == 4 && f[3] == "x"
+	if noServerFirst {
+		f = f[:3]
+	}
 	if len(f) == 4 {
 		// a prefix of a chosen length (as newClientSession measures it: with "_<pid>" appended): either the configuration is
 		// refused when the manager is created, or every later hand-over finds room for its longer names
@@ -1059,9 +1065,37 @@ func c16ApiHot(f []string) vResult {
 		return true
 	}
 	ok := echo("before-restart")
+	epoch := uint64(7)
+	if ok && noServerFirst {
+		res.tags = append(res.tags, "hand-over-without-a-new-server-first")
+		c19WaitFor(4*time.Second, func() bool {
+			old.sessions.sessionMu.Lock()
+			defer old.sessions.sessionMu.Unlock()
+			return len(old.sessions.data) == nsess
+		})
+		os.Remove(path) // nobody listens on the address: the clients' connection attempts fail
+		if err := old.HotRestart(epoch); err != nil {
+			setFail("api-call-fails", "Listener.HotRestart (no new server yet): "+err.Error())
+			ok = false
+		} else {
+			// S (C16): both sides leave the restart state within a bounded time when the hand-over times out
+			if !c19WaitFor(8*time.Second, func() bool { return old.IsHotRestartDone() }) {
+				setFail("listener-stuck-in-hot-restart", "8 s after a HotRestart that nobody could acknowledge (no new server) the old listener is still in the restart state (its time-out is 2 s)")
+				ok = false
+			}
+			if !c19WaitFor(8*time.Second, func() bool {
+				sm.RLock()
+				defer sm.RUnlock()
+				return sm.state != hotRestartState
+			}) {
+				setFail("manager-stuck-in-hot-restart", "8 s after a hand-over that could not connect the manager is still in the restart state")
+				ok = false
+			}
+		}
+		epoch = 8
+	}
 	nw := mkListener(&servedNew, "new")
 	if ok && nw != nil {
-		const epoch = 7
 		// Listener.Run registers a session only after newSession (the whole server-side handshake) has returned, so the
 		// client can be through NewSessionManager a moment before the listener knows all its sessions; a HotRestart in
 		// that window legitimately takes the partial / time-out path.  This scenario is about the complete hand-over.
@@ -1071,6 +1105,9 @@ func c16ApiHot(f []string) vResult {
 			return len(old.sessions.data) == nsess
 		})
 		if err := old.HotRestart(epoch); err != nil {
+			if noServerFirst {
+				setFail("listener-stuck-in-hot-restart", "after a hand-over that timed out the next HotRestart is refused: "+err.Error())
+			}
 			setFail("api-call-fails", "Listener.HotRestart: "+err.Error())
 		} else {
 			// S (C16): the hand-over completes - every client session is moved, nobody is left in the restart state
@@ -1104,7 +1141,7 @@ func c16ApiHot(f []string) vResult {
 					desc += fmt.Sprintf(" [state=%d hs=%v closed=%v]", ss.state, ss.handshakeDone, ss.IsClosed())
 				}
 				old.sessions.sessionMu.Unlock()
-				setFail("manager-stuck-in-hot-restart", "12 s after the server announced epoch 7 the manager is still in the restart state or a pool still holds a session of the old epoch / a dead session: "+desc)
+				setFail("manager-stuck-in-hot-restart", "12 s after the server announced the new epoch the manager is still in the restart state or a pool still holds a session of the old epoch / a dead session: "+desc)
 			}
 			old.Close()
 			before := atomic.LoadInt64(&servedNew)
@@ -1202,6 +1239,9 @@ func c16Exec(ops []string) vResult {
 }
 
 func c16Gen(r *rand.Rand, tier string, idx int, prop string) []string {
+	if prop == "C16" && idx%300 == 33 {
+		return []string{fmt.Sprintf("apihot %s %d x", []string{"file", "memfd"}[r.Intn(2)], 1+r.Intn(2))}
+	}
 	if prop == "C16" && idx%300 == 133 {
 		return []string{fmt.Sprintf("apihot %s %d", []string{"file", "memfd"}[r.Intn(2)], 1+r.Intn(3))}
 	}
